@@ -27,10 +27,63 @@ theorem doSend_inv (s : St) (o : Outcome) (h : Inv s) : Inv (doSend s o) := by
           show s.accepted ++ List.take _ s.sendBuf ++ List.drop _ s.sendBuf = s.queued
           rw [List.append_assoc, List.take_append_drop]; exact hs
 
-theorem step_inv (s : St) (op : Op) (h : Inv s) : Inv (step s op) := by
+theorem doRecv_inv (s : St) (rx : Rx) (h : Inv s) : Inv (doRecv s rx) := by
+  obtain ⟨hs, ho, hq⟩ := h
+  cases rx <;> simp only [doRecv]
+  · exact ⟨hs, ho, hq⟩
+  all_goals
+    by_cases hc : s.closed
+    · simp only [hc, if_true]; exact ⟨hs, ho, hq⟩
+    · have hc' : s.closed = false := by simpa using hc
+      constructor <;> simp_all
+
+theorem doRecv_guard (s : St) (rx : Rx) : (doRecv s rx).guardClosed = s.guardClosed := by
+  cases rx <;> simp only [doRecv] <;> (try rfl) <;> (split <;> rfl)
+
+theorem doSend_guard (s : St) (o : Outcome) : (doSend s o).guardClosed = s.guardClosed := by
+  unfold doSend
+  split
+  · rfl
+  · split
+    · rfl
+    · cases o <;> simp only [] <;> (try rfl)
+      split <;> rfl
+
+theorem doSendRaw_guard (s : St) (o : Outcome) : (doSendRaw s o).guardClosed = s.guardClosed := by
+  unfold doSendRaw
+  split
+  · rfl
+  · cases o <;> simp only [] <;> (try rfl)
+    split <;> rfl
+
+theorem step_guard (s : St) (op : Op) : (step s op).guardClosed = s.guardClosed := by
+  cases op with
+  | send d => rfl
+  | pump o => exact doSend_guard s o
+  | sendFast d o =>
+    simp only [step]
+    split
+    · cases o <;> simp only [] <;> (try rfl)
+      split <;> rfl
+    · rfl
+  | pumpRW rx o =>
+    simp only [step]
+    split
+    · rfl
+    · split
+      · rw [doSend_guard, doRecv_guard]
+      · rw [doSendRaw_guard, doRecv_guard]
+
+theorem step_inv (s : St) (op : Op) (h : Inv s) (hg : s.guardClosed = true) : Inv (step s op) := by
   cases op with
   | send d => exact ⟨by simp [step, ← h.stream, List.append_assoc], h.once, h.quiet⟩
   | pump o => exact doSend_inv s o h
+  | pumpRW rx o =>
+    simp only [step]
+    by_cases hc : s.closed
+    · simp only [hc, if_true]; exact h
+    · simp only [hc, hg, if_true, Bool.false_eq_true, if_false]
+      exact doSend_inv _ o (doRecv_inv s rx h)
   | sendFast d o =>
     obtain ⟨hs, ho, hq⟩ := h
     unfold step
@@ -53,11 +106,11 @@ theorem step_inv (s : St) (op : Op) (h : Inv s) : Inv (step s op) := by
       exact ⟨by simp [← hs, List.append_assoc], ho, hq⟩
 
 theorem run_inv (ops : List Op) : Inv (run ops) := by
-  have : ∀ (s : St), Inv s → Inv (ops.foldl step s) := by
+  have : ∀ (s : St), Inv s → s.guardClosed = true → Inv (ops.foldl step s) := by
     induction ops with
-    | nil => intro s h; exact h
-    | cons o os ih => intro s h; exact ih _ (step_inv s o h)
-  exact this {} ⟨rfl, rfl, rfl⟩
+    | nil => intro s h _; exact h
+    | cons o os ih => intro s h hg; exact ih _ (step_inv s o h hg) (by rw [step_guard]; exact hg)
+  exact this {} ⟨rfl, rfl, rfl⟩ rfl
 
 /-! ## Part B -/
 
